@@ -16,4 +16,4 @@ for d in sorted(glob.glob(os.path.join(V, "seeded", "*"))):
     kind = ""
     if own.get("violation"):
         kind = "failing input" if not any("no-failing-input-found" in l for l in own.get("lines", [])) else "correspondence (no-failing-input-found)"
-    print(f"| {os.path.basename(d)} | {pid} | {short(m.get('summary'), 170)} | {short(m.get('needs'), 150)} | {'caught: ' + kind if own.get('violation') else 'MISSED'} | {' '.join(hits)} |")
+    print(f"| {os.path.basename(d)} | {pid} | {short(m.get('summary'), 170)} | {short(m.get('needs'), 150)} | {'caught: ' + kind if own.get('violation') else ('not detected - ' + short(m['verdict'], 60) if m.get('verdict') else 'MISSED')} | {' '.join(hits)} |")
